@@ -426,14 +426,16 @@ def search_rejections_are_reviewed(F, res, rule="R8"):
                 seen.add(c)
                 unit.append(c)
     found = {}
+    unit_shorts = {FL.short(p) for p in unit}
     for p in unit:
         for n_ in decision_names(F, F.fns[p]):
             found.setdefault(n_, []).append(FL.short(p))
     unknown = {}
     for n_, where in found.items():
         parts = [x for x in __import__("re").split(r"[(), ]+", n_) if x and x not in ("Eq", "Ne", "Lt", "Le", "Gt", "Ge", "Not", "BitAnd", "BitOr")]
+        # the answer of a function of the unit itself is plumbing: its own decisions are in the inventory
         rest = [x for x in parts if x not in SEARCH_DECIDES and not x.startswith(SEARCH_PLUMBING) and x not in SEARCH_PLUMBING and
-                ("adaptor:" + x) not in SEARCH_DECIDES]
+                ("adaptor:" + x) not in SEARCH_DECIDES and x not in unit_shorts]
         if n_ in SEARCH_DECIDES or not rest:
             continue
         unknown[n_] = sorted(set(where))
